@@ -25,6 +25,19 @@ def gen_case(r):
     # a second document resolved afterwards with the SAME path object (a perturbed copy of
     # the first, or an independent one)
     d2 = G.twinned(r, d, 30) if r.coin(40) else G.doc(r, 3)
+    if r.pct() < 3:
+        # a part selecting the children that hold given items, one of them expected to be None: a child WITHOUT that
+        # key does not hold it
+        from ..terms import Leaf
+        k_ = r.choice(["after", "a", "k"])
+        kids = [r.choice([{k_: None}, {k_: None, "b": 1}, {"b": 1}, {}, {k_: 0}, 5, None, {k_: False}]) for _ in range(r.between(2, 5))]
+        kw = {k_: None}
+        if r.coin(30):
+            kw["b"] = 1
+        d = {"kids": kids} if r.coin() else kids
+        pre = [Prim("kids")] if isinstance(d, dict) else []
+        p = PathT(pre + [Part(r.choice(["list", "mol"]), value=Leaf("value", None, "items_contain", kwargs=kw))] + ([Prim("b")] if r.coin(30) else []))
+        return d, p, d2
     if r.pct() < 4:
         # a part condition whose comparison is the `%` operator met with printf-style strings and mappings: for a child
         # it is not defined for (a missing name, a non-mapping) the child is simply not selected
